@@ -503,6 +503,39 @@ static void explore_text_inner(void)
 			char x[96], y[96];
 			mc_violation("length-minus-one-differs", "length -1 gives %s; the explicit length %zu (with the NUL) gives %s", oc_str(&b, x, sizeof x), sl + 1, oc_str(&a, y, sizeof y));
 		}
+		/* the convenience entry points on the same C string: same status, a value exactly on success */
+		if (cur_flags == 0 && cur_depth == JSON_TOKENER_DEFAULT_DEPTH)
+		{
+			enum json_tokener_error ve = (enum json_tokener_error)77;
+			calls += 2;
+			struct json_object *o1 = json_tokener_parse_verbose(buf, &ve);
+			if ((int)ve != b.err)
+				mc_violation("parse-verbose-status-differs", "json_tokener_parse_verbose stored status %d (%s); parse_ex with length -1 ends with %s", (int)ve,
+				             json_tokener_error_desc(ve), json_tokener_error_desc((enum json_tokener_error)b.err));
+			if (o1 && b.status != ST_SUCCESS)
+				mc_violation("value-with-non-success-status", "json_tokener_parse_verbose returned a value although the status is %s", json_tokener_error_desc((enum json_tokener_error)b.err));
+			if (b.status == ST_SUCCESS)
+			{
+				sb_reset(&dumpbuf);
+				vf_dump(o1, &dumpbuf, DUMP_SER);
+				if (mc_hash(dumpbuf.p, dumpbuf.n, 3) != b.valhash)
+					mc_violation("entry-points-differ", "json_tokener_parse_verbose returns another value than parse_ex with length -1");
+			}
+			if (o1)
+				json_object_put(o1);
+			struct json_object *o2 = json_tokener_parse(buf);
+			if (o2 && b.status != ST_SUCCESS)
+				mc_violation("value-with-non-success-status", "json_tokener_parse returned a value for a text that parse_ex ends with %s", json_tokener_error_desc((enum json_tokener_error)b.err));
+			if (b.status == ST_SUCCESS)
+			{
+				sb_reset(&dumpbuf);
+				vf_dump(o2, &dumpbuf, DUMP_SER);
+				if (mc_hash(dumpbuf.p, dumpbuf.n, 3) != b.valhash)
+					mc_violation("entry-points-differ", "json_tokener_parse returns another value than parse_ex with length -1");
+			}
+			if (o2)
+				json_object_put(o2);
+		}
 		static const int bad[] = {-2, -3, -65536, INT_MIN};
 		char *edge = mc_guard_buf(1) + 1; /* first byte of the guard page: any read faults */
 		for (unsigned k = 0; k < 4; k++)
